@@ -308,31 +308,34 @@ fn gr_nexthop(f: Family) -> bgp::Nexthop {
     }
 }
 
-// gr_on_disconnect alone: [2, reason, nbit] -> does helper mode apply
-fn reason_of(code: i128) -> crate::fsm::SessionDownReason {
-    use crate::fsm::SessionDownReason as R;
-    use rustybgp_packet::Notification as N;
-    let m = |n: N| bgp::Message::Notification(n);
-    match code {
-        0 => R::IoError,
-        1 => R::RemoteNotification(m(N::CeaseAdministrativeReset)),
-        2 => R::RemoteNotification(m(N::CeaseHardReset)),
-        3 => R::LocalNotification(m(N::CeaseMaxPrefixReached)),
-        4 => R::LocalNotification(m(N::CeaseHardReset)),
-        5 => R::LocalNotification(m(N::from_notification(3, 1, Vec::new()))),
-        6 => R::HoldTimerExpired,
-        7 => R::FsmError,
-        8 => R::AdminShutdown,
-        t => panic!("verif: bad reason {}", t),
-    }
-}
+// gr_on_disconnect alone: does helper mode apply
+// [2, kind, code, subcode, nbit]; kind: 0 no reason recorded, 1 IoError, 2 NOTIFICATION received,
+// 3 NOTIFICATION sent, 4 hold timer, 5 FSM error, 6 admin shutdown
 fn run_gr_on_disconnect_case(l: &[Val]) -> Val {
+    use crate::fsm::SessionDownReason as R;
     let gr = NegotiatedGr {
         families: vec![Family::IPV4],
         restart_time: Duration::from_secs(120),
-        notification_enabled: l[2].bool(),
+        notification_enabled: l[4].bool(),
     };
-    Val::b(gr_on_disconnect(&Some(reason_of(l[1].int())), gr).is_some())
+    let notif = || {
+        bgp::Message::Notification(rustybgp_packet::Notification::from_notification(
+            l[2].u8(),
+            l[3].u8(),
+            Vec::new(),
+        ))
+    };
+    let reason = match l[1].int() {
+        0 => None,
+        1 => Some(R::IoError),
+        2 => Some(R::RemoteNotification(notif())),
+        3 => Some(R::LocalNotification(notif())),
+        4 => Some(R::HoldTimerExpired),
+        5 => Some(R::FsmError),
+        6 => Some(R::AdminShutdown),
+        t => panic!("verif: bad reason kind {}", t),
+    };
+    Val::b(gr_on_disconnect(&reason, gr).is_some())
 }
 
 fn route_attrs(generation: i128, no_llgr: bool, llgr_comm: bool) -> Arc<Vec<packet::Attribute>> {
@@ -374,7 +377,8 @@ fn caps_of(fams: &[Family], asn: u32, gr: &Val, llgr: &Val) -> Vec<packet::Capab
     c.push(packet::Capability::AddPath(mp.iter().map(|f| (*f, 3u8)).collect()));
     if let Some(g) = gr.list().first() {
         c.push(packet::Capability::GracefulRestart {
-            flags: if g.at(2).bool() { 0x4 } else { 0 },
+            // flags as given: 0x4 = N bit, 0x8 = R bit
+            flags: g.at(2).u8(),
             restart_time: g.at(1).u16(),
             families: g.at(0).list().iter().map(|f| (fam_of(f), 0u8)).collect(),
         });
@@ -763,6 +767,11 @@ async fn run_helper_case(l: &[Val]) -> Val {
                         }
                         2 => {
                             lv.send(&[bgp::Message::Notification(N::CeaseHardReset)]).await;
+                            lv.finished().await;
+                        }
+                        8 => {
+                            // a NOTIFICATION that is not a Cease (UPDATE Message Error / Malformed Attribute List)
+                            lv.send(&[bgp::Message::Notification(N::from_notification(3, 1, Vec::new()))]).await;
                             lv.finished().await;
                         }
                         3 => {
